@@ -192,7 +192,7 @@ func c35GenFrame(t *rapid.T, kinds []int) c35Frame {
 
 func c35Gen(t *rapid.T) c35Case {
 	var c c35Case
-	c.Side = []int{0, 0, 0, 1, 1, 2, 3}[c35Pick(t, "side", 7)]
+	c.Side = []int{0, 0, 0, 1, 1, 2, 2, 3}[c35Pick(t, "side", 8)]
 	c.Cut = -1
 	if c.Side < 2 {
 		// mostly DATA and unknown frames; the other kinds are rarer
@@ -216,7 +216,7 @@ func c35Gen(t *rapid.T) c35Case {
 		c.Settings = rapid.SliceOfN(rapid.Custom(func(t *rapid.T) c35Setting {
 			var s c35Setting
 			s.ID = []uint64{1, 6, 7, 0x21, 0x40, 0x3fff, 1<<62 - 1, 0, 8, 9, 0x33}[c35Pick(t, "sid", 11)]
-			if c35Pick(t, "sidReserved", 12) == 0 {
+			if c35Pick(t, "sidReserved", 20) == 0 {
 				s.ID = uint64(2 + c35Pick(t, "sidR", 4))
 			}
 			s.Val = []uint64{0, 1, 63, 64, 16383, 16384, 1 << 30, 1<<62 - 1}[c35Pick(t, "sval", 8)]
@@ -227,7 +227,7 @@ func c35Gen(t *rapid.T) c35Case {
 			c.SettingsLenDelta = rapid.IntRange(-3, 3).Draw(t, "sdelta")
 		}
 		kinds := []int{c35KUnknown, c35KUnknown, c35KUnknown, c35KUnknown, c35KUnknown, c35KReserved, c35KMisplaced, c35KData, c35KHeadersRaw}
-		if c35Pick(t, "plainCtl", 2) == 0 {
+		if c35Pick(t, "plainCtl", 3) != 0 {
 			kinds = []int{c35KUnknown}
 		}
 		c.Frames = rapid.SliceOfN(rapid.Custom(func(t *rapid.T) c35Frame {
@@ -237,12 +237,12 @@ func c35Gen(t *rapid.T) c35Case {
 			}
 			return f
 		}), 0, 6).Draw(t, "cframes")
-		c.Fin = c35Pick(t, "fin", 5) == 0
+		c.Fin = c35Pick(t, "fin", 8) == 0
 	}
-	if c35Pick(t, "tailQ", 8) == 0 {
+	if c35Pick(t, "tailQ", 8) == 0 && (c.Side < 2 || c35Pick(t, "tailCtlQ", 3) == 0) {
 		c.Tail = rapid.SliceOfN(rapid.Byte(), 1, 6).Draw(t, "tail")
 	}
-	if c35Pick(t, "cutQ", 6) == 0 {
+	if c35Pick(t, "cutQ", 6) == 0 && (c.Side < 2 || c35Pick(t, "cutCtlQ", 3) == 0) {
 		c.Cut = rapid.IntRange(0, 1<<20).Draw(t, "cut")
 	}
 	c.Chunks = rapid.SliceOfN(rapid.IntRange(1, 64), 1, 6).Draw(t, "chunks")
